@@ -53,26 +53,43 @@ OPS = [
 ]
 STMT_DELETE = re.compile(r"^\s*[A-Za-z_][\w\.\[\]\(\)&\*: ]*\s*(\+=|-=|\.push\(|\.insert\(|\.retain\(|\.sort|\.dedup|\.extend\(|\.remove\()")
 
-def mask(line):
-    """blank out string literals and // comments, keeping columns"""
-    out, i, n, instr = [], 0, len(line), False
+def mask_text(text):
+    """blank out string literals (also raw and multi-line), char literals, // and /* */ comments, keeping
+    every character position and every newline"""
+    out = []
+    i, n = 0, len(text)
+    def blank(seg):
+        return "".join(c if c == "\n" else " " for c in seg)
     while i < n:
-        c = line[i]
-        if instr:
-            if c == "\\" and i + 1 < n:
-                out.append("  "); i += 2; continue
-            if c == '"':
-                instr = False; out.append('"')
-            else:
-                out.append(" ")
+        c = text[i]
+        if text.startswith("//", i):
+            j = text.find("\n", i)
+            j = n if j < 0 else j
+            out.append(blank(text[i:j])); i = j
+        elif text.startswith("/*", i):
+            depth, j = 1, i + 2
+            while j < n and depth:
+                if text.startswith("/*", j): depth += 1; j += 2
+                elif text.startswith("*/", j): depth -= 1; j += 2
+                else: j += 1
+            out.append(blank(text[i:j])); i = j
+        elif c == "r" and re.match(r'r#*"', text[i:i+8]) and (i == 0 or not (text[i-1].isalnum() or text[i-1] == "_")):
+            m = re.match(r'r(#*)"', text[i:])
+            close = '"' + m.group(1)
+            j = text.find(close, i + len(m.group(0)))
+            j = n if j < 0 else j + len(close)
+            out.append('"' + blank(text[i+1:j-1]) + '"'); i = j
+        elif c == '"':
+            j = i + 1
+            while j < n and text[j] != '"':
+                j += 2 if text[j] == "\\" else 1
+            j = min(j + 1, n)
+            out.append('"' + blank(text[i+1:j-1]) + '"'); i = j
+        elif c == "'" and re.match(r"'(\\.|[^\\'])'", text[i:i+4]):
+            m = re.match(r"'(\\.|[^\\'])'", text[i:i+4])
+            out.append(" " * len(m.group(0))); i += len(m.group(0))
         else:
-            if c == '"':
-                instr = True; out.append('"')
-            elif c == "/" and i + 1 < n and line[i + 1] == "/":
-                out.append(" " * (n - i)); break
-            else:
-                out.append(c)
-        i += 1
+            out.append(c); i += 1
     return "".join(out)
 
 def sites(files=None):
@@ -81,15 +98,19 @@ def sites(files=None):
         rel = os.path.relpath(path, "/repo")
         if files and not any(rel.endswith(f) for f in files):
             continue
-        lines = open(path).read().split("\n")
-        in_attr_skip = False
+        text = open(path).read()
+        lines = text.split("\n")
+        masked = mask_text(text).split("\n")
+        assert len(masked) == len(lines)
         for ln, line in enumerate(lines, 1):
             if "#[cfg(test)]" in line and "// <--" not in line:
                 break
             st = line.strip()
             if not st or st.startswith("//") or st.startswith("#[") or st.startswith("use ") or st.startswith("pub use "):
                 continue
-            m = mask(line)
+            m = masked[ln - 1]
+            if not m.strip():
+                continue
             # clap help / about strings and messages are masked; skip pure-literal lines
             for name, pat, rep in OPS:
                 for mt in re.finditer(pat, m):
